@@ -135,6 +135,7 @@ Fixpoint run_h (rid : N) (acts : list hact) (s : st) : st * list hact * option (
   | HDrop :: r => run_h rid r (upd_chan rid drop_rx s)
   | HUntil t :: r => if t <=? now s then run_h rid r s else (s, acts, None)
   | HRespond k b p :: _ => (upd_chan rid drop_rx s, [], Some (k, b, p))
+  | HFail st b p :: _ => (set_hfail st (upd_chan rid drop_rx s), [], Some (ONone, b, p))
   end.
 
 Fixpoint hs_get (rid : N) (l : list (N * list hact)) : list hact :=
@@ -156,12 +157,18 @@ Definition start_service (c : cfg) (pop : bool) (r : req) (s : st) : st :=
   let s := if pop && fx_ctx (fx c) then set_ctx c r s else s in
   add_trace (TStart r) (set_ps (ps s ++ [rq_id r]) (set_dstate (SService r) s)).
 
+(* the service future resolved (dispatcher.rs:625-635 / 851-864): Ok(res) -> send_response, state
+   SendPayload; Err(err) -> send_error_response with err.into(), state SendErrorPayload *)
+Definition respond (c : cfg) (r : req) (k : copt) (b p : N) (s : st) : st :=
+  let status := if hfail s =? 0 then 200 else hfail s in
+  set_hfail 0 (set_berr (negb (hfail s =? 0)) (send_response c (Some r) status k b p s)).
+
 (* dispatcher.rs:793-873 handle_request: start the call and poll it once eagerly *)
 Definition handle_request (c : cfg) (r : req) (s : st) : st :=
   let s := start_service c false r s in
   let '(s, out) := poll_handler (rq_id r) s in
   match out with
-  | Some (k, b, p) => send_response c (Some r) 200 k b p s
+  | Some (k, b, p) => respond c r k b p s
   | None => s
   end.
 
@@ -247,6 +254,13 @@ Definition body_end (c : cfg) (s : st) : st :=
   let np := is_nil (messages s) in
   complete_flags c (np && cu) (set_dstate SNone s).
 
+(* dispatcher.rs:718-746: end of the body of an ERROR response in SendErrorPayload (the same text as
+   the SendPayload arm, transcribed separately because it is a separate arm of the code) *)
+Definition body_end_err (c : cfg) (s : st) : st :=
+  let cu := close_unread s in
+  let np := is_nil (messages s) in
+  complete_flags c (np && cu) (set_dstate SNone s).
+
 (* dispatcher.rs:565-791 poll_response *)
 Fixpoint poll_response (fuel : nat) (c : cfg) (s : st) : st :=
   match fuel with
@@ -269,7 +283,7 @@ Fixpoint poll_response (fuel : nat) (c : cfg) (s : st) : st :=
     | SService r =>
         let '(s, out) := poll_handler (rq_id r) s in
         match out with
-        | Some (k, b, p) => poll_response f c (send_response c (Some r) 200 k b p s)
+        | Some (k, b, p) => poll_response f c (respond c r k b p s)
         | None =>
             let '(s, upd) := poll_request c s in                 (* 639-646 *)
             if upd then poll_response f c s else s
@@ -280,7 +294,7 @@ Fixpoint poll_response (fuel : nat) (c : cfg) (s : st) : st :=
           let s := if 0 <? bleft s
                    then set_bleft 0 (if bskip s then s else set_wbuf (wbuf s ++ [WBody (bleft s)]) s)
                    else s in
-          poll_response f c (body_end c s)
+          poll_response f c (if berr s then body_end_err c s else body_end c s)
     end
   end.
 
@@ -456,7 +470,8 @@ Definition init (c : cfg) (hs : list (list hact)) : st :=
        (number 0 hs) []
        0 0 false
        0 [] []
-       [] false.
+       [] false
+       0 false.
 
 Fixpoint run_polls (c : cfg) (rs : list round) (s : st) : st :=
   match rs with [] => s | r :: rest => run_polls c rest (poll c r s) end.
